@@ -59,11 +59,36 @@ def mutation_sites(facts, it, param=1):
     return {bb: (v[0], v[1]) for bb, v in out.items()}
 
 
+def clock_get_of(t):
+    """t is the counter a clock holds for an actor, 0 when absent: `C.get(k)`, or the same spelled on the dots map
+    (`C.dots.get(k).copied().unwrap_or(0)`, `.map_or(0, |c| *c)`, `.unwrap_or_default()`, `match .. { Some(c) => *c, None => 0 }`)
+    ->  (clock term C, key term k) or None."""
+    t = drop_lv(t)
+    if is_call(t, 'get', self_adt='VClock') and len(t[2]) == 2:
+        return t[2][0], t[2][1]
+    inner = None
+    if is_call(t, ('unwrap_or', 'map_or')) and len(t[2]) >= 2 and drop_lv(t[2][1])[0] == 'const' and drop_lv(t[2][1])[1] == 0:
+        inner = drop_lv(t[2][0])
+    elif is_call(t, 'unwrap_or_default') and len(t[2]) == 1:
+        inner = drop_lv(t[2][0])
+    elif t[0] == 'phi' and len(t[1]) == 2:
+        alts = list(t[1])
+        for z, g in ((alts[0], alts[1]), (alts[1], alts[0])):
+            if z[0] == 'const' and z[1] == 0 and g[0] == 'field' and g[2] == 'Some.0':
+                inner = drop_lv(g[1])
+    if inner is not None and is_call(inner, 'get') and len(inner[2]) == 2:
+        m_ = drop_lv(inner[2][0])
+        if m_[0] == 'field' and m_[2] == 'dots':
+            return m_[1], inner[2][1]
+    return None
+
+
 def match_dot_gate(a, b):
     """`get(C, D.actor)` compared with `D.counter`  ->  dict(clock=C, dot=D) (versionless) or None."""
-    if not is_call(a, 'get', self_adt='VClock') or len(a[2]) != 2:
+    cg = clock_get_of(a)
+    if cg is None:
         return None
-    C, X = a[2]
+    C, X = cg
     Xv, cv = versionless(X), versionless(b)
     if Xv[0] == 'field' and Xv[2] == 'actor' and cv[0] == 'field' and cv[2] == 'counter' and Xv[1] == cv[1]:
         return {'clock': versionless(C), 'dot': Xv[1], 'kf': 'actor', 'vf': 'counter'}
@@ -210,6 +235,31 @@ def normal(facts, t):
                 if f_ in fields:
                     fields[f_] = v
             return ('agg', x[1][1], x[1][2], tuple((k, fields[k]) for k, _ in x[1][3]))
+        # obj(phi{agg, agg}, field := v): apply to every alternative
+        if x[0] == 'obj' and x[1][0] == 'phi' and all(a[0] == 'agg' for a in x[1][1]):
+            from ..interp import mk_phi
+            return simp(mk_phi([simp(('obj', a, x[2])) for a in x[1][1]]))
+        if x[0] == 'phi':
+            alts = list(x[1])
+            # phi{Dot{a, c1}, Dot{a, c2}} -> Dot{a, phi{c1, c2}}: the same aggregate built in both arms of a match
+            if all(a[0] == 'agg' for a in alts) and len(set((a[1], a[2], tuple(k for k, _ in a[3])) for a in alts)) == 1:
+                from ..interp import mk_phi
+                names = [k for k, _ in alts[0][3]]
+                merged = tuple((k, simp(mk_phi([dict(a[3])[k] for a in alts]))) for k in names)
+                return ('agg', alts[0][1], alts[0][2], merged)
+            # phi{0, dots.get(k).Some.0} -> VClock::get(clock, k): the stored counter or 0, spelled as a match
+            if len(alts) == 2:
+                for z, g in ((alts[0], alts[1]), (alts[1], alts[0])):
+                    if z[0] == 'const' and z[1] == 0 and g[0] == 'field' and g[2] == 'Some.0' and is_call(g[1], ('get',)) and len(g[1][2]) == 2:
+                        m_ = g[1][2][0]
+                        if m_[0] == 'field' and m_[2] == 'dots':
+                            gb = facts.inherent_method(VCLOCK, 'get')
+                            if gb is not None:
+                                from ..interp import callee_id
+                                cid = callee_id({'def': 'crdts::vclock::VClock::get', 'uid': gb.base_uid, 'name': 'get', 'trait': None,
+                                                 'self_ty': {'k': 'adt', 'path': VCLOCK, 'args': [], 's': 'vclock::VClock'}, 'local': True, 'substs': [],
+                                                 'resolved': None, 'resolved_uid': None, 'resolved_self': None})
+                                return ('call', cid, (m_[1], g[1][2][1]))
         return x
     return rebuild(drop_lv(expand_all(facts, t, stop=PRIMITIVES, depth=8)), simp)
 
@@ -392,3 +442,28 @@ def presence_atom(t, side, field, name, subst_map=None):
             and on_field(drop_lv(ts[1])[2][0]):
         return ('map', name, {True: 1, False: 0})
     return None
+
+
+def ret_value(facts, body, evr):
+    """The value a function returns under the evaluator's assumption: evaluated over the return sites that stay reachable
+    (so `matches!(x, P)`, `if c { true } else { false }` and a plain expression are the same thing).  None when not unique."""
+    it = interp(facts, body)
+    rc = Reach(facts, body, evr)
+    vals = set()
+    sites = [(k, w) for k, w in it.ret_assigns.items() if k[0] in rc.reachable]
+    if not sites:
+        return evr.ev(it.ret)
+    for (bb, si), w in sites:
+        alts = phi_alts(w.val)
+        if len(alts) > 1:
+            # a joined value: which alternative flows here depends on the path; use the path-sensitive view of the local
+            v = evr.ev(w.val)
+            if v is None:
+                return evr.ev(it.ret) if len(sites) == 1 and False else None
+            vals.add(v if not isinstance(v, list) else tuple(v))
+            continue
+        v = evr.ev(alts[0])
+        if v is None:
+            return None
+        vals.add(v)
+    return next(iter(vals)) if len(vals) == 1 else None
